@@ -271,12 +271,28 @@ impl Prop for C09 {
                 }
             })
             .collect();
+        let wide = crate::gen::wide_width(&mut r, cx.case);
+        let huge = wide.is_some_and(|w| w.0 > 65_535);
+        let layout = wide.map_or(0, |w| w.1);
+        let width = wide.map(|w| w.0);
+        let machines = match width {
+            // beyond 2^16 machines: small ones, or the line-up does not fit the worker's memory
+            Some(w) if huge => {
+                let small: Vec<Machine> = machines.iter().filter(|m| m.states.len() <= 3).take(2).cloned().collect();
+                crate::gen::widen(if small.is_empty() { machines.into_iter().take(1).collect() } else { small }, w, layout)
+            }
+            Some(w) => crate::gen::widen(machines, w, layout),
+            None => machines,
+        };
+        if machines.len() > 32 {
+            out.bump(if huge { "cases_with_more_than_65536_machines" } else { "cases_with_more_than_32_machines" });
+        }
         let pf = *r.pick(&[0.0, 0.0, 0.5]);
         let bf = *r.pick(&[0.0, 0.0, 0.5]);
         let rng_seed = rand_core::RngCore::next_u64(&mut r);
         let start = VClock(1 << 40);
         let h = HCfg {
-            calls: r.range(10, 150) as usize,
+            calls: if huge { r.range(5, 30) as usize } else { r.range(10, 150) as usize },
             max_batch: *r.pick(&[1, 2, 2, 4, 8]),
             empty: true,
             backwards: false,
@@ -298,18 +314,21 @@ impl Prop for C09 {
             h,
             max_time: u64::MAX,
             extra16: 0,
+            script: None,
         };
         match run_scenario(sc, &mut r, &mut mon, out, |_, _| None) {
             Ok(s) => {
                 out.add("calls", s.calls);
                 out.add("signalling_calls", mon.signalling_calls);
                 if mon.signalling_calls > 0 {
-                    out.nontrivial(hash_of(&(machines.iter().map(|m| m.serialize()).collect::<Vec<_>>(), s.hist_hash)));
+                    out.nontrivial(hash_of(&(machines.iter().take(8).map(|m| m.serialize()).collect::<Vec<_>>(), machines.len(), s.hist_hash)));
                 }
+                if machines.len() <= 8 {
                 out.sample(|| {
                     json!({"machines": crate::drive::machines_json(&machines), "history_head": s.trace.iter().take(8).collect::<Vec<_>>(),
                            "signalling_calls": mon.signalling_calls})
                 });
+                }
             }
             Err((sig, msg, trace)) => out.violation(sig, msg, witness(&machines, pf, bf, rng_seed, start, &trace)),
         }
